@@ -532,6 +532,10 @@ class SecureGroup(UDPTransport, _IPSecureTransportLayer):
 
     def send(self, knxipframe: KNXIPFrame, addr: tuple[str, int] | None = None) -> None:
         """Send KNXIPFrame to socket. `addr` is ignored on TCP."""
+        if not self.secure_timer.timer_authenticated:
+            # the timer value of a wrapper sent now could be higher than the
+            # one the synchronisation is about to set
+            raise IPSecureError("Secure timer is not synchronised")
         knx_logger.debug("Encrypting frame: %s", knxipframe)
         knxipframe = self.encrypt_frame(plain_frame=knxipframe)
         super().send(knxipframe, addr)
@@ -636,6 +640,8 @@ class SecureSequenceTimer:
             self._notify_timer_handle = None
         if self._expected_notify_handler:
             self._expected_notify_handler[1].cancel()
+        # the next `synchronize()` sets it again
+        self.timer_authenticated = False
 
     def _monotonic_ms(self) -> int:
         """Return current monotonic time in milliseconds."""
